@@ -539,7 +539,7 @@ theorem grpc_call_sent_iff (y : Yaml) (api : Api) (k : ClientKind) (m : String) 
   unfold grpcCall
   by_cases hc : (exposedMixins y api ⟨false⟩ k).contains m = true
   · have hk := (exposed_iff_selected y api k m).1 (List.contains_iff_mem.1 hc)
-    simp only [hc, Bool.not_true, Bool.false_eq_true, if_false, isLegacy, Bool.false_and]
+    simp only [hc, Bool.not_true, Bool.false_eq_true, if_false]
     cases hg : grpcSpec m with
     | none => simp
     | some s' => simp [hk]
@@ -594,29 +594,27 @@ theorem legacy_sync_call (y : Yaml) (api : Api) (m : String) (hm : m ∈ tmplIam
     simp [hs, List.contains_iff_mem.1 hc]
   · rw [← hresp, hs]; rfl
 
-/-- the legacy ASYNCIO methods work iff the RPC also happens to be a selected mixin: they look the
-callable up in `_wrapped_methods`, which only knows the service's own RPCs and `mixin_api_methods` … -/
-theorem legacy_async_call_ok_iff (y : Yaml) (api : Api) (m : String) (hm : m ∈ tmplIam) :
-    grpcCall y api ⟨true⟩ .async m ≠ .keyError ↔ m ∈ keys (mixinApiMethods y api) := by
-  have hc : (exposedMixins y api ⟨true⟩ .async).contains m = true :=
-    List.contains_iff_mem.2 (legacy_iam_three_methods_both_clients y api .async m hm)
-  have hl : isLegacy ⟨true⟩ m = true := by simp [isLegacy, hm]
-  have hs : ∃ s, grpcSpec m = some s := by
-    revert hm; simp only [tmplIam, List.mem_cons, List.not_mem_nil, or_false]
-    rintro (rfl | rfl | rfl) <;> exact ⟨_, rfl⟩
-  obtain ⟨s, hs⟩ := hs
-  unfold grpcCall
-  simp only [hc, hs, hl, Bool.not_true, Bool.false_eq_true, if_false, Bool.true_and, legacyAsyncLookupOk]
-  by_cases hk : m ∈ keys (mixinApiMethods y api)
-  · simp [hk]
-  · simp [hk]
+/-- **The legacy methods work on both clients, whatever the YAML**: the call goes out on the canonical
+IAM path with the canonical types and a `resource` header — on the asyncio client too since the `fix:`
+commit 0e4f131 (before it the asyncio methods raised KeyError unless the RPC was also a selected mixin). -/
+theorem legacy_call_both_clients (y : Yaml) (api : Api) (k : ClientKind) (m : String) (hm : m ∈ tmplIam) :
+    ∃ s, grpcCall y api ⟨true⟩ k m = .sent s ∧ s.path = "/google.iam.v1.IAMPolicy/" ++ m ∧
+      s.routingField = "resource" ∧ some s.resp = canonicalResp m := by
+  cases k
+  · exact legacy_sync_call y api m hm
+  · obtain ⟨s, hs, rest⟩ := legacy_sync_call y api m hm
+    exact ⟨s, by simpa [grpcCall, sync_async_alike] using hs, rest⟩
 
-/-- … so with the option alone (no IAM mixin in the YAML — the option's normal use) every legacy
-asyncio IAM call raises `KeyError` (reproduced on the emitted library: finding `legacy-iam-async-keyerror`). -/
-theorem legacy_async_keyerror_counterexample :
-    ∀ m ∈ tmplIam, grpcCall ⟨[], []⟩ ⟨[["GetBook"]]⟩ ⟨true⟩ .async m = .keyError ∧
-      grpcCall ⟨[], []⟩ ⟨[["GetBook"]]⟩ ⟨true⟩ .sync m ≠ .keyError := by
+/-- regression for 0e4f131: with the option alone (no IAM mixin in the YAML — the option's normal use)
+the asyncio call is sent exactly as the sync one -/
+theorem legacy_async_regression :
+    ∀ m ∈ tmplIam, grpcCall ⟨[], []⟩ ⟨[["GetBook"]]⟩ ⟨true⟩ .async m = grpcCall ⟨[], []⟩ ⟨[["GetBook"]]⟩ ⟨true⟩ .sync m ∧
+      grpcCall ⟨[], []⟩ ⟨[["GetBook"]]⟩ ⟨true⟩ .async m ≠ .absent := by
   decide
+
+/-- the two clients behave alike on every mixin call -/
+theorem grpc_call_sync_async_alike (y : Yaml) (api : Api) (o : Opts) (m : String) :
+    grpcCall y api o .sync m = grpcCall y api o .async m := rfl
 
 /-! ## REST -/
 
